@@ -513,3 +513,85 @@ Section FlowFacts.
     unfold cluster_stage. rewrite <- (combos_of_ni _ _ H), (reindexed_idem t _ (combos_of_NoDup fr)). reflexivity.
   Qed.
 End FlowFacts.
+
+(* ================================================================== the data class in front of predict *)
+Section DataStageFacts.
+  Context {Wc W O : Type}.
+  Variable w_empty : Wc -> bool.
+  Variable calendar : list Z -> list (list cal_stamp * option err).
+  Variable fill_w : list (option Wc) -> list W.
+  Variable fill_o : list (option O) -> list (option O).
+  Notation rec := (rec Wc O).
+
+  (* keep-first de-duplication seen through the (stamp, weather) view of the records *)
+  Fixpoint keep_first_v (seen : list Z) (l : list (Z * Wc)) : list (Z * Wc) :=
+    match l with
+    | [] => []
+    | v :: t => if existsb (Z.eqb (fst v)) seen then keep_first_v seen t else v :: keep_first_v (fst v :: seen) t
+    end.
+
+  Lemma keep_first_view : forall (l : list rec) seen,
+    map rec_view (keep_first seen l) = keep_first_v seen (map rec_view l).
+  Proof.
+    induction l as [|r l IH]; intros seen; [reflexivity|]. cbn [keep_first map keep_first_v rec_view fst].
+    destruct (existsb (Z.eqb (q_utc r)) seen); [apply IH|]. cbn [map]. rewrite IH. reflexivity.
+  Qed.
+
+  (* which record of a repeated stamp survives is decided by the index alone *)
+  Lemma select_keep_first_ni : forall a b : list rec, same_records_but_usage a b ->
+    map rec_view (select w_empty KeepFirst a) = map rec_view (select w_empty KeepFirst b).
+  Proof. intros a b H. unfold select. rewrite !keep_first_view. unfold same_records_but_usage in H. rewrite H. reflexivity. Qed.
+
+  Lemma find_rec_view : forall (sel : list rec) u,
+    option_map (@q_w Wc O) (find_rec sel u) = option_map snd (find (fun v : Z * Wc => Z.eqb (fst v) u) (map rec_view sel)).
+  Proof.
+    intros sel u. unfold find_rec. induction sel as [|r sel IH]; [reflexivity|]. cbn [find map rec_view fst].
+    destruct (Z.eqb (q_utc r) u); [reflexivity | exact IH].
+  Qed.
+
+  Lemma map_fst_combine_seq : forall (A : Type) (l : list A) a n, length l <= n -> map fst (combine l (seq a n)) = l.
+  Proof.
+    intros A. induction l as [|x l IH]; intros a n H; [reflexivity|]. destruct n as [|n]; [cbn in H; lia|].
+    cbn [seq combine map fst]. f_equal. apply IH. cbn in H. lia.
+  Qed.
+
+  Definition sview (sw : cal_stamp * W) : Z * Z * Z * nat * W := let '(u, m, d, h) := fst sw in (u, m, d, h, snd sw).
+
+  Lemma strip_mk_hrow : forall s w (o : option O), strip (mk_hrow s w o) = sview (s, w).
+  Proof. intros [[[u m] d] h] w o. reflexivity. Qed.
+
+  Lemma flat_strip : forall (stamps : list cal_stamp) (wcol : list W) (ocol : list (option O)),
+    map strip (map (fun swk : cal_stamp * W * nat => mk_hrow (fst (fst swk)) (snd (fst swk)) (nth (snd swk) ocol None))
+                   (combine (combine stamps wcol) (seq 0 (length stamps))))
+    = map sview (combine stamps wcol).
+  Proof.
+    intros stamps wcol ocol. rewrite map_map.
+    transitivity (map sview (map fst (combine (combine stamps wcol) (seq 0 (length stamps))))).
+    - rewrite map_map. apply map_ext. intros [[s w] k]. cbn [fst snd]. apply strip_mk_hrow.
+    - rewrite map_fst_combine_seq; [reflexivity|]. rewrite combine_length. apply Nat.le_min_l.
+  Qed.
+
+  Lemma split_days_ni : forall cal (flat flat' : list (hrow W O)), map strip flat = map strip flat' ->
+    same_weather_calendar (split_days cal flat) (split_days cal flat').
+  Proof.
+    unfold same_weather_calendar. induction cal as [|[st loc] cal IH]; intros flat flat' E; [reflexivity|].
+    cbn [split_days map]. unfold strip_day at 1 3. cbn [h_rows h_loc].
+    rewrite <- !firstn_map, E. f_equal. apply IH. rewrite <- !skipn_map, E. reflexivity.
+  Qed.
+
+  (* the frame the model receives has the same weather and calendar whatever the usage cells of the records are *)
+  Lemma data_stage_ni : forall a b : list rec, same_records_but_usage a b ->
+    same_weather_calendar (data_stage w_empty calendar fill_w fill_o KeepFirst a)
+                          (data_stage w_empty calendar fill_w fill_o KeepFirst b).
+  Proof.
+    intros a b H. pose proof (select_keep_first_ni a b H) as S. unfold data_stage.
+    set (sa := select w_empty KeepFirst a) in *. set (sb := select w_empty KeepFirst b) in *.
+    assert (Eu : map (@q_utc Wc O) sa = map (@q_utc Wc O) sb).
+    { assert (X : forall l : list rec, map (@q_utc Wc O) l = map fst (map rec_view l))
+        by (intros l; rewrite map_map; apply map_ext; reflexivity).
+      rewrite !X, S. reflexivity. }
+    rewrite Eu. set (cal := calendar (map (@q_utc Wc O) sb)). set (stamps := concat (map fst cal)).
+    apply split_days_ni. rewrite !flat_strip. f_equal. f_equal. f_equal.
+    apply map_ext. intros s. rewrite !find_rec_view, S. reflexivity.
+  Qed.
+End DataStageFacts.
